@@ -345,7 +345,17 @@ fn worker(prop: &str, tier: Tier, seed: u64, start: u64, end: u64) {
             let (mc, mv, used) = minimise(&case, v, 200, &ff);
             part.minimise_execs += used as u64;
             // replay the minimised case once more: it must fail the same way
-            let again = run_case(&mc, Duration::from_secs(90)).and_then(|c| find_same(&c, &key));
+            let mut again = run_case(&mc, Duration::from_secs(90)).and_then(|c| find_same(&c, &key));
+            // cases that observe uncontrolled OS threads (real rayon pools): when the library under test races, that
+            // race IS the violation and need not show in every execution - the confirmation is retried a few times
+            if again.is_none() && mc.observes_real_threads() {
+                for _ in 0..6 {
+                    again = run_case(&mc, Duration::from_secs(90)).and_then(|c| find_same(&c, &key));
+                    if again.is_some() {
+                        break;
+                    }
+                }
+            }
             match again {
                 Some(v2) if v2.event == mv.event => {
                     let rf = ReplayFile { property: prop.into(), verif_seed: seed, run: i, violation: mv.clone(), minimised_from_size: Some(case.size()), case: mc.clone() };
